@@ -36,7 +36,7 @@ def run_prop(ctx, prop, replay=None):
         rid = 0
         for kind in ('state', 'observation'):
             spaces = list(reps.all_spaces(kind))
-            chosen = spaces if not ctx.quick else rng.sample(spaces, 150)
+            chosen = spaces if not ctx.quick else rng.sample(spaces, 400)
             # the spaces of the shipped configurations
             for path in config.shipped_files():
                 d = config.load(path)
